@@ -60,10 +60,7 @@ theorem SortedBy.tail {k : FileSpec → List Nat} {x : FileSpec} {l : List FileS
   | nil => trivial
   | cons y rest => exact h.2
 
-/-- The sort key of the code: the written form of `/F`. -/
-def dataKey (cpsOf : String → List Nat) (f : FileSpec) : List Nat := fData (cpsOf f.filename)
-
-/-- The key a PDF reader compares: the bytes of `/F`. -/
+/-- The key a PDF reader compares — and, since e909019, the sort key of the code: the bytes of `/F`. -/
 def rawKey (cpsOf : String → List Nat) (f : FileSpec) : List Nat := fKey (cpsOf f.filename)
 
 theorem insertSpec_perm (cpsOf : String → List Nat) (x : FileSpec) (l : List FileSpec) :
@@ -72,7 +69,7 @@ theorem insertSpec_perm (cpsOf : String → List Nat) (x : FileSpec) (l : List F
   | nil => simp [insertSpec]
   | cons y ys ih =>
     simp only [insertSpec]
-    by_cases h : nameLt (fData (cpsOf y.filename)) (fData (cpsOf x.filename)) = true
+    by_cases h : nameLt (fKey (cpsOf y.filename)) (fKey (cpsOf x.filename)) = true
     · rw [if_pos h]
       exact (List.Perm.cons y ih).trans (List.Perm.swap x y ys)
     · rw [if_neg h]
@@ -85,81 +82,43 @@ theorem sortSpecs_perm (cpsOf : String → List Nat) (l : List FileSpec) : (sort
     exact (insertSpec_perm cpsOf x _).trans (List.Perm.cons x ih)
 
 theorem insertSpec_sorted (cpsOf : String → List Nat) (x : FileSpec) (l : List FileSpec)
-    (hs : SortedBy (dataKey cpsOf) l) : SortedBy (dataKey cpsOf) (insertSpec cpsOf x l) := by
+    (hs : SortedBy (rawKey cpsOf) l) : SortedBy (rawKey cpsOf) (insertSpec cpsOf x l) := by
   induction l with
   | nil => simp [insertSpec, SortedBy]
   | cons y ys ih =>
     simp only [insertSpec]
-    by_cases h : nameLt (fData (cpsOf y.filename)) (fData (cpsOf x.filename)) = true
+    by_cases h : nameLt (fKey (cpsOf y.filename)) (fKey (cpsOf x.filename)) = true
     · rw [if_pos h]
       have hrec := ih hs.tail
-      have hyx : nameLt (dataKey cpsOf x) (dataKey cpsOf y) = false := nameLt_asymm _ _ h
+      have hyx : nameLt (rawKey cpsOf x) (rawKey cpsOf y) = false := nameLt_asymm _ _ h
       cases ys with
       | nil => simp only [insertSpec, SortedBy]; exact ⟨hyx, trivial⟩
       | cons z zs =>
         simp only [insertSpec] at hrec ⊢
-        by_cases h2 : nameLt (fData (cpsOf z.filename)) (fData (cpsOf x.filename)) = true
+        by_cases h2 : nameLt (fKey (cpsOf z.filename)) (fKey (cpsOf x.filename)) = true
         · rw [if_pos h2] at hrec ⊢
           exact ⟨hs.1, hrec⟩
         · rw [if_neg h2] at hrec ⊢
           exact ⟨hyx, hrec⟩
     · rw [if_neg h]
-      exact ⟨by simpa [dataKey] using h, hs⟩
+      exact ⟨by simpa [rawKey] using h, hs⟩
 
 theorem sortSpecs_sorted (cpsOf : String → List Nat) (l : List FileSpec) :
-    SortedBy (dataKey cpsOf) (sortSpecs cpsOf l) := by
+    SortedBy (rawKey cpsOf) (sortSpecs cpsOf l) := by
   induction l with
   | nil => simp [sortSpecs, SortedBy]
   | cons x xs ih => exact insertSpec_sorted cpsOf x _ ih
 
-/-- A key byte that the literal form leaves alone and that sorts after the closing parenthesis. -/
-def PlainByte (b : Nat) : Prop := 41 < b ∧ b ≠ 92
-
-instance (b : Nat) : Decidable (PlainByte b) := by unfold PlainByte; infer_instance
-
-theorem escapeLit_plain (bs : List Nat) (h : ∀ b ∈ bs, PlainByte b) : Wp.PdfStr.escapeLit bs = bs := by
-  induction bs with
+/-- Equal keys keep their document order (`sorted` is stable): an element inserted in front of a list
+stays in front of every element whose key is not smaller. -/
+theorem insertSpec_head (cpsOf : String → List Nat) (x : FileSpec) (l : List FileSpec)
+    (h : ∀ y ∈ l, nameLt (rawKey cpsOf y) (rawKey cpsOf x) = false) : insertSpec cpsOf x l = x :: l := by
+  cases l with
   | nil => rfl
-  | cons b rest ih =>
-    have hb := h b (by simp)
-    have h1 : (b == 92 || b == 40 || b == 41) = false := by
-      unfold PlainByte at hb
-      simp only [Bool.or_eq_false_iff, beq_eq_false_iff_ne]; omega
-    simp only [Wp.PdfStr.escapeLit, h1, Bool.false_eq_true, if_false]
-    rw [ih (fun c hc => h c (List.mem_cons_of_mem _ hc))]
-
-/-- Appending one terminator smaller than every element does not change the order. -/
-theorem nameLt_snoc (t : Nat) : ∀ (a b : List Nat), (∀ x ∈ a, t < x) → (∀ x ∈ b, t < x) →
-    nameLt (a ++ [t]) (b ++ [t]) = nameLt a b
-  | [], [], _, _ => by simp [nameLt]
-  | [], y :: ys, _, hb => by
-    have := hb y (by simp)
-    simp only [List.nil_append, List.cons_append, nameLt, if_pos this]
-  | x :: xs, [], ha, _ => by
-    have := ha x (by simp)
-    simp only [List.nil_append, List.cons_append, nameLt]
-    rw [if_neg (by omega), if_pos this]
-  | x :: xs, y :: ys, ha, hb => by
-    simp only [List.cons_append, nameLt]
-    rw [nameLt_snoc t xs ys (fun z hz => ha z (List.mem_cons_of_mem _ hz)) (fun z hz => hb z (List.mem_cons_of_mem _ hz))]
-
-theorem fData_lt_plain (a b : List Nat) (ha : ∀ x ∈ fKey a, PlainByte x) (hb : ∀ x ∈ fKey b, PlainByte x) :
-    nameLt (fData a) (fData b) = nameLt (fKey a) (fKey b) := by
-  unfold fData
-  rw [escapeLit_plain _ ha, escapeLit_plain _ hb]
-  simp only [nameLt, Nat.lt_irrefl, if_false]
-  exact nameLt_snoc 41 _ _ (fun x hx => (ha x hx).1) (fun x hx => (hb x hx).1)
-
-theorem SortedBy_congr (k k' : FileSpec → List Nat) (l : List FileSpec)
-    (h : ∀ x ∈ l, ∀ y ∈ l, nameLt (k x) (k y) = nameLt (k' x) (k' y)) (hs : SortedBy k l) : SortedBy k' l := by
-  induction l with
-  | nil => trivial
-  | cons x xs ih =>
-    cases xs with
-    | nil => trivial
-    | cons y ys =>
-      refine ⟨?_, ih (fun a ha b hb => h a (List.mem_cons_of_mem _ ha) b (List.mem_cons_of_mem _ hb)) hs.2⟩
-      rw [← h y (by simp) x (by simp)]; exact hs.1
+  | cons y ys =>
+    have := h y (by simp)
+    simp only [insertSpec]
+    rw [if_neg (by simpa [rawKey] using this)]
 
 /-! ### link-level attachments -/
 
